@@ -547,10 +547,11 @@ def paren_depth(text):
 
 
 def run(ctx):
-    # bounds follow the measured cost of a parse: ~0.6 ms without parentheses, ~10 ms (unloaded; 20x that on a busy
-    # machine) with one level of parentheses, ~50 ms with two
-    core = ctx.pick([(2, 3, ("min", "tight", "full"))], [(4, 3, tuple(STYLES))])
-    spines = ctx.pick([], [(2, 4, ("min",))])
+    # bounds follow the measured cost of a parse: ~0.6 ms without parentheses; with one level of parentheses ~10 ms on
+    # an idle machine but 150-350 ms when the machine is busy (each parse maps/unmaps ~600 16 KB interpreter stack
+    # chunks because pyparsing's recursion keeps crossing a chunk boundary); 4x that with two levels
+    core = ctx.pick([(2, 3, ("min", "tight", "full"))], [(3, 3, ("min", "tight", "full")), (2, 3, ("wide",))])
+    spines = ctx.pick([], [(1, 4, ("min",))])
     adjacency = ctx.pick(("tight",), tuple(STYLES))
     ctx.bounds = {
         "atoms_sweep": "%d unary operators, %d regex operators x %d regexes x allowed quoting forms, ~c x %d codes" % (
